@@ -171,13 +171,15 @@ Definition check_num (n : num) (tok : str) : string :=
                       (if qle (Qabs (v - x)) (u * (1 # 2) + fslack x) then "" else "number-value")
                     else "missing-su"
           | Some (sv, tz) =>
-              (* value: rounded at the position of the su's last significant digit *)
-              let ru := match nt_fd t with O => u * pow10 (Z.of_nat tz) | _ => u end in
+              let su := inject_Z sv * u in
+              (* value: rounded at a digit position not coarser than the su; with decimals the last printed
+                 digit is that position, without decimals the digits may be the expansion of a float *)
+              let ru := match nt_fd t with O => su | _ => u end in
               if negb (qle (Qabs (v - x)) (ru * (1 # 2) + fslack x)) then "number-value"
               else
-                let su := inject_Z sv * u in
-                let tol := u * pow10 (Z.of_nat tz) * (1 # 2) in
-                let lo := if qle tol su then su - tol else 0 in
+                (* the su is printed with one significant digit (two if the first is 1) *)
+                let tol := su * (1 # 4) in
+                let lo := su - tol in
                 let hi := su + tol in
                 if qle (lo * lo) (var * (1000000001 # 1000000000)) && qle (var * (999999999 # 1000000000)) (hi * hi)
                 then "" else "su-value"
